@@ -14,3 +14,4 @@ import Proofs.Gen
 #print axioms Xsel.Gen.no_shared_writes
 #print axioms Xsel.Gen.inplace_ops_on_fresh
 #print axioms Xsel.Gen.go_statements_only_in_cli
+#print axioms Xsel.Gen.one_write_per_block
